@@ -94,7 +94,7 @@ ledger_prop('C17', ['C17_current_tx_metadata', 'C17_merge_last_write_wins', 'C17
             'Coq proof (current transaction metadata = replay of saves/deletes in log order; merge/delete algebra; history revision per rewrite) + differential run incl. raw history tables + metadata monitor',
             'Unbounded theorems: current transaction metadata equals creation metadata with saves (last write wins per key) and deletes applied in commit order; account upsert merges over stored metadata; with the history feature every row rewrite appends the new metadata as next revision dated updated_at. Tie: model = real stack on current metadata AND both raw history tables under 5 feature sets.',
             'The point-in-time read queries (as-of-t selection, DISABLED => current) are compared by the PIT read tie (C05 harness); chart default metadata is covered under C29.',
-            extra=['-scripts', '30'])
+            extra=['-scripts', '30', '-oddkeys', '1'])
 ledger_prop('C18', ['C18_partial_persistence', 'C18_partial_involved_listed', 'C18_partial_metadata_creates', 'C18_partial_metadata_lowers', 'C18_first_usage_is_earliest_event', 'C18_full_without_reverts', 'C18_refuted_revert'],
             'Coq proof of the partial statement + refutation witness of the full statement (vm_compute) replayed on the real code + differential run',
             'Proved for every history: an account is listed iff the log holds an event involving it (created transaction at its timestamp, metadata write at its date) and its first usage IS the earliest such event (C18_first_usage_is_earliest_event); the property as worded, revert transactions included, for every history without reverts (C18_full_without_reverts); accounts persist with constant address/insertion date, first usage never increases, committed creates list every involved account with first usage <= effective timestamp, metadata creates the account and counts as a usage at the time of the write (after the repair 2a129a1). REFUTED (witness C18_refuted_revert, known finding): a revert transaction whose effective timestamp precedes an account\'s first usage does not lower it. Tie: model = real stack; monitor computes earliest effective event per account and tags the known revert case.',
